@@ -303,8 +303,23 @@ def evaluate(case, ctx, need_info=False):
         # multicomplex applies no finite-difference rule: its quotient is second order whatever
         # `order` says (the property excludes it from C06 for that reason)
         p_eff = 2 if method == 'multicomplex' else d.method_order
-        ev.U.append(envelope_unit(a, n, p_eff, heads, w, difference_forming(method, n, d.order),
-                                  ev.amp))
+        u_basic = envelope_unit(a, n, p_eff, heads, w, difference_forming(method, n, d.order), ev.amp)
+        # Richardson-aware unit: with t extrapolation terms the estimates built from the k_est - t
+        # largest steps have truncation order p + s*t, s the documented spacing of the error
+        # expansion (1 one-sided, 2 central / multicomplex / complex n=1 order<4, 4 other complex) and
+        # p the documented leading order; both restated here, not read from the library
+        s_true, p_true = documented_orders(method, n, d.order)
+        t = max(0, min(int(getattr(d, 'richardson_terms', 2)), ev.k_est - 1))
+        u_x = None
+        if t > 0:
+            amp_r = richardson_amplification(float(abs(ratio)), p_true, s_true, t)
+            heads_r = sorted(hs, reverse=True)[:max(ev.k_est - t, 1)]
+            u_x = envelope_unit(a, n, p_true + s_true * t, heads_r, w,
+                                difference_forming(method, n, d.order), ev.amp * amp_r)
+        if u_basic is not None and u_x is not None and u_x[0] < u_basic[0]:
+            ev.U.append(u_x)
+        else:
+            ev.U.append(u_basic)
         ev.hmin.append(hmin)
         ev.hmax.append(hmax)
     return ev
@@ -346,6 +361,36 @@ def envelope_unit(a, n, p, hs, w, diff_forming, amp):
     if not np.isfinite(tot[j]) or tot[j] > 700:
         return None
     return amp * math.exp(tot[j]), amp * math.exp(min(lt[j], 700)), amp * math.exp(min(lr[j], 700))
+
+
+def documented_orders(method, n, order):
+    """(spacing s, leading order p) of the truncation-error expansion as documented."""
+    if method in ('forward', 'backward'):
+        s = 1
+    elif method == 'complex' and (n > 1 or order >= 4):
+        s = 4
+    else:
+        s = 2
+    if method == 'multicomplex':
+        return 2, 2
+    return s, max(s * (order // s), s)
+
+
+def richardson_amplification(r, p, s, t):
+    """sum |w| of the Richardson weights that remove h^(p + s j), j < t, for step ratio r > 1."""
+    if t <= 0 or not (r > 1):
+        return 1.0
+    A = np.ones((t + 1, t + 1))
+    for i in range(t + 1):
+        for j in range(t):
+            A[j + 1, i] = r ** (-i * (p + s * j))
+    rhs = np.zeros(t + 1)
+    rhs[0] = 1.0
+    try:
+        wts = np.linalg.solve(A, rhs)
+    except np.linalg.LinAlgError:
+        return 1.0
+    return float(max(1.0, np.sum(np.abs(wts))))
 
 
 def summary(case, ev=None, j=0):
